@@ -32,3 +32,27 @@ def run_replay(prop, path, root, build):
     doc = json.load(open(path))
     print(json.dumps(doc, indent=1)[:6000])
     return 0
+
+
+def native_replay(u, h, vals, root, build):
+    """run the same harness body natively against the real /repo crates with the concrete
+    values of Kani's counterexample.  reproduced = the harness assertion panics."""
+    import shutil
+    import subprocess
+    crate = os.path.join(root, 'replay')
+    env = dict(os.environ)
+    env['CARGO_NET_OFFLINE'] = 'true'
+    env['CARGO_TARGET_DIR'] = os.path.join(build, 'replay-target')
+    env['RUSTFLAGS'] = '--cfg isographlabs_isograph_verif'
+    shutil.copy('/repo/Cargo.lock', os.path.join(crate, 'Cargo.lock'))
+    b = subprocess.run(['cargo', 'build', '--offline', '--bin', 'kani_replay'], cwd=crate, env=env, capture_output=True, text=True)
+    if b.returncode != 0:
+        return {'ran': False, 'error': 'replay crate does not build: ' + b.stderr[-1500:]}
+    hexvals = [''.join('%02x' % x for x in v) or '-' for v in vals]
+    exe = os.path.join(env['CARGO_TARGET_DIR'], 'debug', 'kani_replay')
+    try:
+        p = subprocess.run([exe, u['name'], h['name']] + hexvals, capture_output=True, text=True, timeout=120)
+    except subprocess.TimeoutExpired:
+        return {'ran': True, 'reproduced': False, 'error': 'native replay timed out'}
+    return {'ran': True, 'reproduced': p.returncode == 101, 'exit': p.returncode,
+            'cmd': ' '.join([exe, u['name'], h['name']] + hexvals), 'stdout': p.stdout[-1500:], 'stderr': p.stderr[-1500:]}
